@@ -926,6 +926,19 @@ def p_into_vec(eng, st, name, args, site, depth, call):
     return one(st, eng.val(st, args[0]))
 
 
+@prim_re(r"^<(std::vec::Vec|\[T\]|std::vec::Vec<.*>) as std::ops::Index(Mut)?>::index(_mut)?$")
+def p_index(eng, st, name, args, site, depth, call):
+    """v[i]: the same term the slice patterns `[a]`, `[a, b, ..]` project (ConstantIndex)"""
+    if "index_mut" in name:
+        return opaque_call(eng, st, name, args, site, call)
+    v, i = vals(eng, st, args)
+    if v[0] == "list" and i[0] == "lit" and isinstance(i[1], int) and i[1] < len(v[1]):
+        return one(st, v[1][i[1]])
+    if i[0] == "lit":
+        return one(st, ("index", v, i))
+    return one(st, ("call", name, (v, i)))      # ranges etc. stay opaque
+
+
 @prim("std::vec::Vec::len", "core::slice::<impl [T]>::len", "core::str::<impl str>::len", "std::string::String::len")
 def p_len(eng, st, name, args, site, depth, call):
     v = eng.val(st, args[0])
